@@ -20,11 +20,15 @@ DOMAINS = {
     "quick": [("a2", {"Alphabet": "{0, 200}", "MaxH": "4", "MaxN": "4", "MaxC5": "2"}, TYPES),
               ("a3", {"Alphabet": "{0, 97, 200}", "MaxH": "3", "MaxN": "2", "MaxC5": "2"}, TYPES)],
     "thorough": [("a2", {"Alphabet": "{0, 200}", "MaxH": "5", "MaxN": "5", "MaxC5": "3"}, TYPES),
-                 ("a3", {"Alphabet": "{0, 97, 200}", "MaxH": "4", "MaxN": "4", "MaxC5": "2"}, TYPES),
-                 ("a3l", {"Alphabet": "{0, 97, 200}", "MaxH": "5", "MaxN": "4", "MaxC5": "3"}, ("char",))],
+                 ("a3", {"Alphabet": "{0, 97, 200}", "MaxH": "4", "MaxN": "4", "MaxC5": "2"}, ("char",)),
+                 ("a3w", {"Alphabet": "{0, 97, 200}", "MaxH": "4", "MaxN": "3", "MaxC5": "2"}, ("wchar_t", "char16_t")),
+                 ("s2", {"Alphabet": "{0, 200}", "MaxH": "4", "MaxN": "4", "MaxC5": "2"}, TYPES),
+                 ("s3", {"Alphabet": "{0, 97, 200}", "MaxH": "3", "MaxN": "2", "MaxC5": "2"}, TYPES)],
 }
-# the sanitizer pass replays the quick domains (every out-of-view read traps there)
-SAN_DOMAINS = ("a2", "a3")
+# the sanitizer pass replays the two quick domains (every out-of-view read traps there); the plain pass skips them in the
+# thorough tier (they are sub-domains of a2 / a3)
+SAN_DOMAINS = ("s2", "s3")
+PLAIN_SKIP = ("s2", "s3")
 RANDOM = {"quick": (100, 64), "thorough": (2500, 64)}    # (records per type, max length)
 
 
@@ -93,8 +97,10 @@ def execute(tier, inputs, binpath, impl, tags=None, tag="", env=None, nrandom=No
     d = vlib.workdir("traces")
     tasks = []
     expect = []
+    if tags is None:
+        tags = [t for t in inputs if not (tier == "thorough" and t in PLAIN_SKIP)]
     for dtag, inp in sorted(inputs.items()):
-        if tags is not None and dtag not in tags:
+        if dtag not in tags:
             continue
         total = sum(inp["ncalls"])
         m = max(1, -(-total // CHUNK))
@@ -126,7 +132,7 @@ def execute(tier, inputs, binpath, impl, tags=None, tag="", env=None, nrandom=No
                 traps += int(l.rsplit("traps=", 1)[1])
         outs.append(tp)
         events += got
-    nrecs = sum(inp["records"] * len(inp["types"]) for t, inp in inputs.items() if tags is None or t in tags) + nrec * len(TYPES)
+    nrecs = sum(inp["records"] * len(inp["types"]) for t, inp in inputs.items() if t in tags) + nrec * len(TYPES)
     return outs, {"events": events, "records": nrecs, "traps": traps}
 
 
